@@ -145,6 +145,11 @@ func (n *LocalNode) FindSuccessor(key uint64) (chord.VNode, error) {
 	}
 	// find next in ring according to finger table
 	closest := n.closestPrecedingNode(key)
+	if closest.ID() == n.ID() {
+		// no finger precedes the key (e.g. the finger table is not repaired yet after a join):
+		// asking ourselves again would recurse forever, whereas the successor is always closer
+		closest = succ
+	}
 	// contact possibly remote node
 	return closest.FindSuccessor(key)
 }
